@@ -383,7 +383,7 @@ def judge(res: Result, case, loop):
     from exabgp.bgp.message import Message
 
     try:
-        m2 = Message.unpack(2, body, neg)
+        m2 = Message.unpack(2, memoryview(body), neg)
         data = m2 if getattr(m2, 'IS_EOR', False) else m2.data
         ev = norm.strict_loads(Response.JSON(json_version).update(nb, 'receive', data, b'', b'', neg))
         obs = norm.update_observed(ev)
